@@ -106,6 +106,13 @@ func pivotOperator(_ *dataTreeNavigator, context Context, _ *ExpressionNode) (Co
 		if err != nil {
 			return Context{}, err
 		}
+		// a tag can be written by hand (`!!map [1]`): what is pivoted is decided by the tag, so the elements
+		// have to be of that kind
+		for _, element := range candidate.Content {
+			if (tag == "!!map" && element.Kind != MappingNode) || (tag == "!!seq" && element.Kind != SequenceNode) {
+				return Context{}, fmt.Errorf("cannot pivot an element tagged %v that is not one", tag)
+			}
+		}
 		var pivot *CandidateNode
 		switch tag {
 		case "!!seq":
